@@ -386,7 +386,7 @@ def native_sequences(chk):
                 'other category first': [['analyze', c2, d2, p_twin] for c2 in PROBE_DETECTORS if c2 != cat for d2 in PROBE_DETECTORS[c2][:2]] + [['analyze', cat, d, p_main] for d in dets],
             }
             for what, pre in (stress_predecessors(chk).items() if t is texts[0] else ()):
-                sequences['after %s' % what] = [['bigstack', 'analyze', cat, d, pre] for d in dets] + [['analyze', cat, d, p_main] for d in dets]
+                sequences['after %s' % what] = [['bigstack', 'analyze_raw', cat, d, pre] for d in dets] + [['analyze', cat, d, p_main] for d in dets]
             for what, jobs in sequences.items():
                 res = chk.native.run(jobs)
                 chk.states += len(jobs)
@@ -397,7 +397,8 @@ def native_sequences(chk):
                     if r != want:
                         chk.violation('%s:sequence:%s' % (cat, re.sub(r'[^a-z]+', '-', what)),
                                       '%s on the same file returns %r when analysed %s, %r when analysed alone' % (j[2], r, what, want),
-                                      {'job': 'analyze sequence', 'detector': j[2], 'sequence': what, 'source': t, 'other_source': twin(t), 'alone': want, 'in_sequence': r})
+                                      {'job': 'analyze sequence', 'detector': j[2], 'sequence': what, 'source': t, 'alone': want, 'in_sequence': r,
+                                       'other_source': open(jobs[0][4]).read() if jobs[0][0] == 'bigstack' else twin(t), 'raw': jobs[0][0] == 'bigstack'})
                         nviol += 1
                     else:
                         chk.ok()
